@@ -55,11 +55,22 @@ example : storeProvs (Out.fall [Term.app "store" [Term.app "getitem" [Term.app "
 
 /-! ### the rules, for all terms -/
 
-/-- `x.copy()` is fresh for every `x`, in every environment; a view / element (`x[a:b]`, `x[key]`) never is. -/
-theorem copy_fresh_view_not (env : Env) (x i : Term) (h : isIndexArray i = false) :
+/-- `x.copy()` is fresh for every expression `x` (not itself a `copy=` keyword), in every environment; a view / element
+    (`x[a:b]`, `x[key]`) never is. -/
+theorem copy_fresh_view_not (env : Env) (x i : Term) (h : isIndexArray i = false) (hx : mayNotCopy [x] = false) :
     provIn env (Term.app ".copy" [x]) = Prov.fresh ∧ provIn env (Term.app "getitem" [x, i]) ≠ Prov.fresh ∧
     provIn env (Term.app "getitem" [x, i]) = elemOf (provIn env x) :=
-  ⟨prov_copy env x, prov_getitem_view_ne_fresh env x i h, prov_getitem_view env x i h⟩
+  ⟨prov_copy env x hx, prov_getitem_view_ne_fresh env x i h, prov_getitem_view env x i h⟩
+
+/-- `x.astype(dtype)` is fresh, `x.astype(dtype, copy=False)` is not: it is whatever `x` is — the receiver, when a
+    conversion method writes `self.astype(dtype, copy=False)` (NumPy hands back `self` when the dtype is already right). -/
+theorem astype_fresh_unless_copy_false (env : Env) (x d : Term) (h : mayNotCopy [x, d] = false) :
+    provIn env (Term.app ".astype" [x, d]) = Prov.fresh ∧
+    provIn env (Term.app ".astype" [x, d, Term.app "=copy" [Term.sym "False"]]) = provIn env x :=
+  ⟨prov_astype env [x, d] h, prov_astype_nocopy env x d⟩
+
+/-- a conversion written `return self.astype(bool, copy=False)` has a RECEIVER result site. -/
+example : resultProvs (Out.ret [] (Term.app ".astype" [Term.sym "self", Term.sym "bool", Term.app "=copy" [Term.sym "False"]])) = [Prov.receiver] := by decide
 
 /-- `for colname, column in self.items(): yield colname, g(column)`: exactly one result site — `g(column)` with `column`
     a column of the receiver — and no store, for every `g`. -/
